@@ -74,4 +74,17 @@ PLAN = {
             {"name": "miri", "flavour": "miri", "shards": 8, "shards_thorough": 64, "timeout": 1200},
         ],
     },
+    "C04": {
+        "level": "exploration",
+        "rule": "counter runs (2-16 threads x clones of one handle over the standard atomic storage; increments-only with wrap-around "
+                "starts, absolutes mixed with increments, absolutes with concurrent monotonicity readers), gauge runs with exactly "
+                "representable inc/dec, short gauge histories (2-4 threads x 2-4 ops, unique set values) checked for linearizability "
+                "(Wing-Gong), histogram record/record_many through logging HistogramFn doubles (default and overriding record_many) over "
+                "every IntoF64 type, extreme values and no-op handles. case = one run/history; distinct = hash of its parameters and outcome.",
+        "assumptions": ["gauge arithmetic judged only on exactly representable values", "linearizability search budget 200k states per history; overrun = inconclusive"],
+        "legs": [
+            {"name": "native", "flavour": "native", "shards": 4, "shards_thorough": 16},
+            {"name": "miri", "flavour": "miri", "shards": 6, "shards_thorough": 32, "timeout": 1200},
+        ],
+    },
 }
